@@ -12,48 +12,44 @@ META = {
              'point; a removed id is unreachable. Tied to the source by generated facts (constants, flush step order, '
              'validation order) and by a correspondence run of the model against the real index (search results incl. '
              'tie-breaks, loaded states of every crash prefix, removals) on generated histories over all four metrics and '
-             'both neighbour-selection strategies. RECALL FLOORS ARE NOT A THEOREM: recall@10 on the documented workloads '
+             'both neighbour-selection strategies, at the index level and through the collection-level Hnsw wrapper over '
+             'Storage (CAS puts, purge_orphan_node_blobs). insert needs no invariant for soundness (any graph); it is proved '
+             'to keep nodes and ids in step, so the statements compose over any history after any crash prefix. RECALL FLOORS ARE NOT A THEOREM: recall@10 on the documented workloads '
              'is measured over several seeds and reported as a measurement; a drop below floor minus margin is reported '
              'as a violation with the seed.'),
     'design_ref': 'DESIGN.md section 4 / C12',
     'note': ('Partial by design: recall floors are statistical (measured, not proved). Trusted: Coq kernel + vm_compute; '
              'translator; harness and its distance keys (the f32 the crate\'s own metric returns, seen through the '
              'OrderedFloat order); an independent f64 reading of the four metrics in the harness (tolerance 1e-3) ties '
-             '"configured metric" to the crate function. Modelled, not verified: papaya/croaring/cbor2, the layer '
-             'generator (thread RNG, so graphs differ between runs with one seed), insert()\'s neighbour selection '
-             '(covered only by the correspondence run over the graphs it builds), node key = node.id (enforced by '
-             'insert and validate_loaded_node). Concurrency is out of scope here (single-threaded histories).'),
+             '"configured metric" to the crate function. Modelled, not verified: papaya/croaring/cbor2; the layer '
+             'generator (LayerGen::generate draws from rand::rng(), the thread RNG - the crate offers no seed, so graphs '
+             'differ between runs with one VERIF_SEED; operations, vectors and queries are deterministic in the seed); '
+             'insert: layer choice, construction searches and neighbour selection are arbitrary parameters of the model '
+             '(soundness holds for any graph) and are exercised through the graphs they build; the re-link of '
+             'reconnect_on_delete is an arbitrary function in the model and is read off the observation in the '
+             'correspondence run (with a check that it only draws from the candidate set of the code); node key = node.id '
+             '(enforced by insert and validate_loaded_node); multipart uploads of the object store are not snapshotted '
+             '(not used by the HNSW artifacts). Concurrency is out of scope here (single-threaded histories).'),
     'technique': 'Coq proof (loop invariants over the two heaps, any-graph soundness, load/crash-prefix invariant) + translator-generated facts + differential model/impl run + measured recall',
 }
 
 IMPORTS = 'From Verif Require Import Hnsw.Model Hnsw.Run.'
 
 
-def translate_own(ck):
-    """Regenerate gen/Gen_Hnsw.v only (translate.py --only gen_hnsw): this property's theorems depend on no other
-    generated file, so a lost anchor of another property's generator is not an obligation of C12."""
-    import sys
-    import vlib
-    with vlib.Lock('coq'):
-        rc, out, _ = vlib.sh([sys.executable, vlib.ROOT + '/tools/translate.py', '--repo', vlib.REPO,
-                              '--out', vlib.COQ + '/gen', '--only', 'gen_hnsw'], timeout=300)
-    lost = [l for l in out.splitlines() if l.startswith('LOST-ANCHOR')]
-    ck.ob('translator regenerates gen/Gen_Hnsw.v from /repo working tree', rc == 0 and not lost, 'generated',
-          out if (rc != 0 or lost) else '')
-    ck.trust('translator /verif/tools/translate.py + tools/gen_hnsw.py (regex extraction of constants, flush step order, '
-             'validation order from rs/anda_db_hnsw/src/hnsw.rs and rs/anda_db/src/index/hnsw.rs)')
-
-
 def run(ck):
     quick = ck.tier == 'quick'
-    ck.rule = ('insert/remove/re-insert/flush/query histories of 12..70 operations over id spaces of 4..60, dimensions '
-               '{2,3,5,8,16,33,64}, 4 metrics x 2 strategies x reconnect on/off, M 2..6, ef 1..24, max_layers 1..5; vectors '
+    ck.rule = ('insert/remove/re-insert/flush/query histories of 12..70 operations over id spaces of 4..60; history h uses '
+               'metric h%4, strategy (h/4)%2, reconnect (h/8)%2 and dimension 2+((h+seed)*11 mod 63) (all of 2..64 in the '
+               'thorough tier, 36 of them in the quick tier, most not multiples of 8), M 2..6, ef 1..24, max_layers 1..5; vectors '
                'uniform / clustered / integer lattice (exact ties) / wide, with duplicates; queries stored / zero / x1e6 / '
                'one huge coordinate / reflected / in-distribution / NaN, inf, wrong dimension; k in {0,1,n,n+1,random}; '
                'every crash prefix of the last flush (nodes, ids, metadata, purge deletes) loaded, searched, re-indexed, '
-               'searched; corrupted disk images. non-trivial = a distinct model-compared case with >=3 nodes (search: a '
+               'searched; corrupted disk images; the same through the collection-level Hnsw wrapper over Storage over a '
+               'snapshotting object store (every crash prefix of the real PUT / conditional-PUT / DELETE sequence of '
+               'Hnsw::flush, bootstrap incl. purge_orphan_node_blobs, re-index, recovery flush, second bootstrap; a second '
+               'writer with stale versions). The distribution actually drawn is in coverage.input_distribution. non-trivial = a distinct model-compared case with >=3 nodes (search: a '
                'non-empty result; load: a blob missing or unlisted; remove: a node removed)')
-    translate_own(ck)
+    ck.translate(only=['gen_hnsw'])
     ck.coq(['Hnsw/Props.v'], ['Hnsw'], model_targets=['Hnsw/Run.vo'])
     ck.trust('premise of the search theorems: the heap order leK (OrderedFloat<f32>) is total - proved for the integer-key '
              'instance of the correspondence run (C12_run_order_total); nothing is assumed about the raw f32 comparisons')
@@ -65,9 +61,11 @@ def run(ck):
     if binary:
         out = ck.work + '/c12.jsonl'
         if quick:
-            args = ['--histories', '36', '--model-every', '5', '--recall-seeds', '1', '--crash-prefixes', '10']
+            args = ['--histories', '36', '--model-every', '5', '--recall-seeds', '1', '--crash-prefixes', '10',
+                    '--wrapper-histories', '8']
         else:
-            args = ['--histories', '400', '--model-every', '6', '--recall-seeds', '8', '--crash-prefixes', '100000']
+            args = ['--histories', '252', '--model-every', '6', '--recall-seeds', '4', '--crash-prefixes', '120',
+                    '--wrapper-histories', '64']
         rc, text = ck.run_harness(binary, ['c12', '--out', out] + args, timeout=6000)
         ok = ck.ob('harness c12 ran', rc == 0 and os.path.exists(out), 'correspondence', text[-2000:])
         if ok:
@@ -96,7 +94,8 @@ def run(ck):
             from coqterm import to_coq
             for part, ctype, fn in (('search', 'scase', 'check_search'),
                                     ('load', 'lcase * lobs', 'check_load'),
-                                    ('remove', 'rcase * robs', 'check_remove')):
+                                    ('remove', 'rcase * robs', 'check_remove'),
+                                    ('remove_relink', 'rcase * robs', 'check_remove_relink')):
                 mrows = [r for r in rows if r['kind'] == 'model' and r['part'] == part]
                 cases = [r['case'] for r in mrows]
                 res = ck.eval_cases(IMPORTS, ctype, fn, cases, shard=12 if part == 'search' else 40, label='cases_' + part)
@@ -114,7 +113,8 @@ def run(ck):
                 detail = ''
                 if bad:
                     i = bad[0]
-                    runner = {'search': 'run_scase', 'load': 'run_load (fst', 'remove': 'run_remove (fst'}[part]
+                    runner = {'search': 'run_scase', 'load': 'run_load (fst', 'remove': 'run_remove (fst',
+                              'remove_relink': 'run_remove (fst'}[part]
                     term = to_coq(cases[i])
                     model = ck.eval_term(IMPORTS, (runner + ' ' + term + (')' if '(' in runner else '')))
                     detail = 'case %d: %s\nmodel: %s' % (i, json.dumps(cases[i])[:2500], model[-1500:])
